@@ -50,6 +50,13 @@ def run(ctx):
     public = [m for n, m in methods.items() if not n.startswith('_') or n == '__init__']
     check_A1(ctx, scope, methods, public)
     percall, config = attr_classes(methods)
+    # memo tables that are valid across calls (memo-validity) and their snapshots are caches, not per-call state
+    for name, m in repo.methods(INF, 'FactoredInference').items():
+        for X, verdict in cross_call_memos(m).items():
+            if verdict[0]:
+                percall.discard(X)
+                for sn in (verdict[2] if len(verdict) > 2 else []):
+                    percall.discard(sn)
     ctx.count('per-call attributes', len(percall))
     ctx.count('configuration attributes', len(config))
     if not percall:
@@ -81,8 +88,8 @@ def check_A1(ctx, scope, methods, public):
     entry = {m.qualname for m in public}
     n = 0
     memos = {}
-    for name, m in methods.items():
-        for X, verdict in cross_call_memos(getattr(m, 'original', m)).items():
+    for name, m in ctx.repo.methods(INF, 'FactoredInference').items():      # the source methods, helpers included
+        for X, verdict in cross_call_memos(m).items():
             memos[X] = verdict
             ctx.ob('memo-validity', m, m.node, verdict[0], 'cross-call memo table self.%s: %s' % (X, verdict[1]),
                    construct='memo table self.%s in %s' % (X, m.name))
